@@ -50,50 +50,56 @@ theorem inv_ex (w : World K) (D : K) (b : Broker K) (ex : Exchange K) (h : Inv w
 /-- what `mark1` does when it does anything -/
 theorem mark1_cases (w : World K) (k : Key) (b : Broker K) :
     mark1 w k b = b ∨
-    ∃ p lp, (w.spec k).mr ≠ 0 ∧ liqPrice b k (b.pos k) = some p ∧ b.lastMark k = some lp ∧
+    (∃ p lp, (w.spec k).mr ≠ 0 ∧ liqPrice b k (b.pos k) = some p ∧ b.lastMark k = some lp ∧
       mark1 w k b = { b with
         margin := upd b.margin k (p * absv (b.pos k) * (w.spec k).mult * (w.spec k).mr)
         cash := b.cash + (b.margin k + b.pos k * (w.spec k).mult * (p - lp)
                   - p * absv (b.pos k) * (w.spec k).mult * (w.spec k).mr)
-        lastMark := upd b.lastMark k (some p) } := by
+        lastMark := upd b.lastMark k (some p) }) ∨
+    ((w.spec k).mr ≠ 0 ∧ liqPrice b k (b.pos k) = none ∧ b.pos k = 0 ∧
+      mark1 w k b = { b with margin := upd b.margin k 0, cash := b.cash + b.margin k }) := by
   unfold mark1
   by_cases hmr : (w.spec k).mr = 0
   · left; simp [hmr]
   · simp only [hmr, if_false]
     cases hq : liqPrice b k (b.pos k) with
-    | none => left; rfl
+    | none =>
+      by_cases h0 : b.pos k = 0
+      · right; right
+        exact ⟨hmr, rfl, h0, by simp [h0]⟩
+      · left; simp [h0]
     | some p =>
       cases hl : b.lastMark k with
       | none => left; rfl
       | some lp =>
-        right
+        right; left
         refine ⟨p, lp, hmr, rfl, rfl, ?_⟩
         simp only
         congr 1
         · funext k'; simp only [upd]; split_ifs <;> ring
 
 theorem mark1_held (w : World K) (k : Key) (b : Broker K) : (mark1 w k b).held = b.held := by
-  rcases mark1_cases w k b with h | ⟨p, lp, _, _, _, h⟩ <;> rw [h]
+  rcases mark1_cases w k b with h | ⟨p, lp, _, _, _, h⟩ | ⟨_, _, _, h⟩ <;> rw [h]
 
 theorem mark1_pos (w : World K) (k : Key) (b : Broker K) : (mark1 w k b).pos = b.pos := by
-  rcases mark1_cases w k b with h | ⟨p, lp, _, _, _, h⟩ <;> rw [h]
+  rcases mark1_cases w k b with h | ⟨p, lp, _, _, _, h⟩ | ⟨_, _, _, h⟩ <;> rw [h]
 
 theorem mark1_ex (w : World K) (k : Key) (b : Broker K) : (mark1 w k b).ex = b.ex := by
-  rcases mark1_cases w k b with h | ⟨p, lp, _, _, _, h⟩ <;> rw [h]
+  rcases mark1_cases w k b with h | ⟨p, lp, _, _, _, h⟩ | ⟨_, _, _, h⟩ <;> rw [h]
 
 theorem mark1_ghost (w : World K) (k : Key) (b : Broker K) :
     (mark1 w k b).interest = b.interest ∧ (mark1 w k b).comm = b.comm ∧
     (mark1 w k b).basis = b.basis ∧ (mark1 w k b).snapped = b.snapped ∧
     (mark1 w k b).record = b.record ∧ (mark1 w k b).lastAccrual = b.lastAccrual := by
-  rcases mark1_cases w k b with h | ⟨p, lp, _, _, _, h⟩ <;> rw [h] <;> simp
+  rcases mark1_cases w k b with h | ⟨p, lp, _, _, _, h⟩ | ⟨_, _, _, h⟩ <;> rw [h] <;> simp
 
 theorem mark1_other (w : World K) (k k' : Key) (b : Broker K) (h : k' ≠ k) :
     (mark1 w k b).margin k' = b.margin k' ∧ (mark1 w k b).lastMark k' = b.lastMark k' := by
-  rcases mark1_cases w k b with e | ⟨p, lp, _, _, _, e⟩ <;> rw [e] <;> simp [h]
+  rcases mark1_cases w k b with e | ⟨p, lp, _, _, _, e⟩ | ⟨_, _, _, e⟩ <;> rw [e] <;> simp [h]
 
 theorem mark1_inv (w : World K) (D : K) (k : Key) (b : Broker K) (h : Inv w D b) :
     Inv w D (mark1 w k b) := by
-  rcases mark1_cases w k b with e | ⟨p, lp, hmr, hp, hl, e⟩
+  rcases mark1_cases w k b with e | ⟨p, lp, hmr, hp, hl, e⟩ | ⟨hmr, hq, h0, e⟩
   · rw [e]; exact h
   · have hk : k ∈ b.held := by
       by_contra hn
@@ -125,6 +131,39 @@ theorem mark1_inv (w : World K) (D : K) (k : Key) (b : Broker K) (h : Inv w D b)
     · intro k' hk'
       have hne : k' ≠ k := fun e => hmr (e ▸ hk')
       simpa [hne] using h.spot0 k' hk'
+  · -- flat and unpriced: the margin account is emptied into cash
+    rw [e]
+    by_cases hk : k ∈ b.held
+    · refine ⟨?_, h.nodup, ?_, ?_, ?_⟩
+      · have hs := sumL_off_mem b.held h.nodup (Lterm w b)
+          (Lterm w { b with margin := upd b.margin k 0, cash := b.cash + b.margin k }) k hk
+          (by intro k' hk'; simp [Lterm, lmv, hk'])
+        have hl' := h.ledger
+        simp only [Ledger] at hl' ⊢
+        rw [hs, ← hl']
+        simp only [Lterm, lmv, upd_same, h0]
+        ring
+      · intro k' hk'
+        have hne : k' ≠ k := fun e => hk' (e ▸ hk)
+        have := h.fresh k' hk'
+        simpa [hne] using this
+      · intro k' hk'
+        exact h.marked k' hk'
+      · intro k' hk'
+        by_cases hne : k' = k
+        · subst hne; simp
+        · simpa [hne] using h.spot0 k' hk'
+    · -- never traded: its margin is zero already
+      have hm0 : b.margin k = 0 := (h.fresh k hk).2.1
+      have heq : ({ b with margin := upd b.margin k 0, cash := b.cash + b.margin k } : Broker K) = b := by
+        have hf : upd b.margin k 0 = b.margin := by
+          funext k'; simp only [upd]; split_ifs with hh
+          · subst hh; exact hm0.symm
+          · rfl
+        rw [hf, hm0]
+        cases b
+        simp
+      rw [heq]; exact h
 
 theorem foldl_mark1_inv (w : World K) (D : K) (l : List Key) (b : Broker K) (h : Inv w D b) :
     Inv w D (l.foldl (fun b k => mark1 w k b) b) := by
